@@ -15,7 +15,7 @@ def configs(tier, seed):
             for branch in ("pre", "fn"):
                 if n >= 5 and branch == "fn":
                     continue          # the callable branch is covered up to n = 4; n = 5 runs the matrix branch
-                cfgs.append(dict(n=n, K=K, part=list(part), branch=branch, weight=10 ** n,
+                cfgs.append(dict(n=n, K=K, part=list(part), branch=branch, weight=10 ** n, deadline_s=5400,
                                  wstride=7 if n <= 3 else (97 if n == 4 else 4001)))
     return cfgs
 
